@@ -122,7 +122,7 @@ func c12LruOps(r *lib.Rng, size, chunk, entries, nops int) ([]c12LruOp, string) 
 
 func c12LruCases(c *Ctx) error {
 	r := c.Rng.Fork()
-	n := c12N(c, 300, 6000, 3000)
+	n := c12N(c, 300, 8000, 3000)
 	// caches are kept and Reset between cases, so that storage holds stale data of earlier files
 	pool := map[[2]int]lrufile.File{}
 	for i := 0; i < n; i++ {
